@@ -1,6 +1,22 @@
+from checklib import steps
 from checklib.registry import generic, COMMON_NOTE
 
-CHECK = generic("C05", [dict(harness="heap", area="heap"), dict(harness="skiplist", area="skiplist")])
+
+def deep_search(work, res, tier, proofs_ok):
+    """Search phase of the heap part. The ordinary run replays every call on the list-based Lean model, which
+    bounds how deep its queues can be (a few thousand elements). When something broke (a proof, or the white-box
+    correspondence: heap array / slice capacity / a result differ from the model) but the specification accepted every
+    call of the ordinary run, the defect may need a larger capacity or a deeper heap to become observable: the harness's
+    `-deep` family (bounded queues filled to capacities up to ~80000, deep heaps drained completely) is executed on the
+    real code and judged by the specification only. Never runs on a healthy tree."""
+    broke = (not proofs_ok) or getattr(res, "broken_proof", None) or any(not v[1] for v in res.violations)
+    if not broke or any(v[1] for v in res.violations):
+        return
+    steps.TraceCorr(work, res, "C05", harness="heap", area="heap", name="heap-deep", tier=tier, gen_args=["-deep"],
+                    spec_only=True).run(proofs_ok=True)
+
+
+CHECK = generic("C05", [dict(harness="heap", area="heap"), dict(harness="skiplist", area="skiplist")], extra=deep_search)
 
 MANIFEST = dict(
     text=("Theorems in Lean 4 (Ekit/Props/C05.lean) for ANY comparator that is a total preorder (ties allowed). "
@@ -25,7 +41,10 @@ MANIFEST = dict(
           "height sequence (contract demanded of Inserts only), ANY lawful comparator incl. ties: AsSlice ascending and = "
           "inserted minus one cmp-equal element per successful delete as a multiset; Len/Peek/Get/Search agree with it. "
           "Both models are trace acceptors for the real code on every run (heap array incl. slot 0 and slice capacity; tower "
-          "heights, level, size and every level chain), tower heights come from several hundred seeds of x/exp/rand per run."),
+          "heights, level, size and every level chain), tower heights come from several hundred seeds of x/exp/rand per run. "
+          "Capacities span 1 .. 2^22 on every run (constructor, Cap, IsBoundless, slice capacity, light use) and bounded queues "
+          "are filled to and past capacities of ~2000 and ~5000 (thorough: ~17000); when only the white-box correspondence "
+          "breaks, a specification-only search goes on to capacities of ~66000 and complete drains of 9000-element heaps."),
     note=COMMON_NOTE + " Comparator lawfulness (total preorder) is a hypothesis; harness comparators (natural, k/3 with ties, reversed) "
          "are proved lawful. Slice growth capacity on append and the tower height drawn by randomLevel are oracles (constraints "
          "cap>=len, 1<=h<=MaxLevel, the latter checked on every observed Insert); pointer-level tower splicing is abstracted to the "
